@@ -6,7 +6,7 @@ From Coq Require Import List NArith ZArith QArith Qcanon Bool Lia Sorted.
 From ACB Require Import Base.Outcome Base.QcExtra Base.Fit Base.Arith Model.Tx Model.Ledger Model.Sfl
      Model.DeltaList Spec.AvgCost Spec.SflRule Spec.Possible Proofs.Tactics Proofs.C01Refine
      Proofs.C04Inv Proofs.C04Sum Proofs.C02Scan Proofs.C05Sites Proofs.C04Reject Proofs.C04Ahead
-     Proofs.C05NoPanic Proofs.EffCent.
+     Proofs.C05NoPanic Proofs.EffCent Proofs.AllAfter.
 Import ListNotations.
 Local Open Scope Qc_scope.
 
@@ -744,7 +744,8 @@ Section Step.
       + apply nonsell_refines in Ed as (_ & Hsfl & _); [|rewrite Ea; reflexivity].
         unfold denied_of. rewrite Hsfl. reflexivity.
       + unfold delta_nonsell in Ed. rewrite Ea in Ed.
-        bnr Ed. bnr Ed. destruct (s_acb _); cbn [bind] in Ed; [|discriminate Ed].
+        bnr Ed. rewrite all_after_exact in Ed. cbn [bind] in Ed.
+        bnr Ed. destruct (s_acb _); cbn [bind] in Ed; [|discriminate Ed].
         bnr Ed. bnr Ed. bnr Ed. bnr Ed. discriminate Ed.
     - (* Sell *)
       cbn [valid_action] in Hv. vsplit Hv. apply Qcltb_true in Hv.
@@ -782,7 +783,8 @@ Section Step.
         * inversion Ec; subst r0. left. exists OverSale. split; [reflexivity|].
           assert (Hlt' : Qcltb (s_sh pre) n = true) by (apply Qcltb_true; qc_lra).
           rewrite Hlt'. reflexivity.
-        * exfalso. destruct (Qcltb_spec (s_all pre - n) 0) as [Hlt|_].
+        * exfalso. rewrite (all_after_exact_as _ _ _ (s_all pre - n)) in Ec by ring. cbn [bind] in Ec.
+          destruct (Qcltb_spec (s_all pre - n) 0) as [Hlt|_].
           { apply Qcnot_lt_le in Hsh. rewrite Hpsh in Hsh. rewrite Hpall in Hlt. qc_lra. }
           bnr Ec. destruct a as [aps_|]; [|discriminate Ec].
           bnr Ec. bnr Ec. bnr Ec. cbn [a_sub a_mul exact bind] in Ec. discriminate Ec.
@@ -812,7 +814,7 @@ Section Step.
       unfold delta_nonsell. rewrite Ea. cbn [a_mul a_div exact].
       destruct (Qceqb pre_ 0); cbn [bind]; [exact I|].
       unfold gez_unwrap. destruct (Qcleb 0 (s_sh pre * post / pre_)) eqn:Eq; cbn [bind]; [|exact I].
-      cbn [a_sub a_add exact bind].
+      rewrite all_after_exact. cbn [bind].
       destruct (Qcltb_spec (s_all pre + (s_sh pre * post / pre_ - s_sh pre)) 0) as [Hlt|_].
       { exfalso. apply Qcleb_true in Eq. rewrite Hpall, Hpsh in Hlt. rewrite Hpsh in Eq. qc_lra. }
       destruct (Qcltb post pre_ && io && negb (Qc_is_integer (s_sh pre * post / pre_))); cbn [bind].
@@ -896,7 +898,7 @@ Section Whole.
 
   Lemma set_latest_no_rej st af v r : set_latest exact st af v <> Rej r.
   Proof.
-    unfold set_latest. cbn [a_add a_sub exact bind].
+    unfold set_latest. rewrite all_after_exact. cbn [bind].
     destruct (negb _); [discriminate|]. destruct (negb _); discriminate.
   Qed.
 
